@@ -165,5 +165,5 @@ def finalize(cov, agg, tier):
 
 def subs(tier):
     return [Sub("fuzzfield", st.just({}), run_fuzzfield, quick=1, thorough=1, needs=("fuzzfield",),
-                enum=lambda t: fuzzrun.campaigns(t, 3000, 150000), max_wall={"quick": 500, "thorough": 3000}),
+                enum=lambda t: fuzzrun.campaigns(t, 3000, 60000), max_wall={"quick": 500, "thorough": 3000}),
             Sub("history", cases(), run_case, quick=7500, thorough=300000)]
